@@ -29,6 +29,19 @@ def main(tier, rep):
     vclock.install()
     common.import_repo()
     T0 = common._real_time()
+    # the two as-coded models are explored by TLC in the background while the programs below run on the real code
+    import threading
+    from drivers import connmodel
+    box = {}
+
+    def models():
+        try:
+            box["conn"] = connmodel.tlc_run(rep, tier, False, pooled=True, idle=1)
+            box["pool"] = pool_model_tlc(rep, tier)
+        except BaseException as e:   # noqa
+            box["err"] = e
+    th = threading.Thread(target=models)
+    th.start()
     length = 2 if tier == "quick" else 3
     ops = OPS[:3]
     faults = FAULTS if tier == "quick" else FAULTS[:5] + FAULTS[7:]
@@ -44,13 +57,28 @@ def main(tier, rep):
     seqs = list(itertools.product(step_choices, repeat=length))
     import random
     pick = random.Random(common.seed() + 99)
+    stats = {"n": 0, "distinct": set(), "samples": []}
+
+    def flush(force=False):
+        """validate what has accumulated and let it go (the thorough tier produces more traces than fit in memory at once)"""
+        if not traces or (len(traces) < 20000 and not force):
+            return
+        L.validate(rep, traces, relevant, PROP)
+        stats["n"] += len(traces)
+        for t in traces:
+            if any(s_[0] == "call" and s_[3] for s_ in t["steps"]) or t["cfg"]["idle"]:
+                stats["distinct"].add(hash((t["h"]["kind"], t["cfg"]["idle"], t["cfg"]["max_pool"], t["cfg"]["ignore_exc"]) +
+                                           tuple((s_[1], s_[2], s_[3]) for s_ in t["steps"])))
+        if len(stats["samples"]) < 4:
+            stats["samples"] += traces[11::max(1, len(traces) // 4)][:4 - len(stats["samples"])]
+        del traces[:]
     for ci, ce in enumerate(cfgs):
         for si, seq in enumerate(seqs):
             n += 1
             # every configuration sees every sequence in thorough; a rotating third in quick
             if tier == "quick" and pick.random() >= 0.07:
                 continue
-            if tier == "thorough" and (si + ci) % 6 != 0:
+            if tier == "thorough" and (si + ci) % 24 != 0:
                 continue
             cfg = L.Cfg(default_noreply=(n % 2 == 0), **ce)
             steps = []
@@ -59,6 +87,7 @@ def main(tier, rep):
                 steps.append(("tick", g))
             steps.append(("call", "add", False, None, "all"))
             traces.append(L.run_program(cfg, steps, miss=L.miss_result(cfg)))
+            flush()
     if tier != "quick":
         # all five operations (multi-command ones included) in every pair of steps
         sc2 = [(op, nr, f, g) for (op, nr) in OPS for f in faults for g in GAPS]
@@ -73,11 +102,13 @@ def main(tier, rep):
                     steps += [("call", op, nr, f, L.SEGS[n % 4]), ("tick", g)]
                 steps.append(("call", "add", False, None, "all"))
                 traces.append(L.run_program(cfg, steps, miss=L.miss_result(cfg)))
+                flush()
     # every public operation x every single-fault plan (each socket call, each reply) on the pooled stacks, warm and fresh
     for mp in (1, None):
         for cfgp, steps in L.gen_fault_programs(["pooled", "hashpooled"], L.ALL_OPS, tier, seed=common.seed() + (mp or 0),
                                                 cfg_extra={"max_pool": mp, "idle": IDLE}, quick_stride=3):
             traces.append(L.run_program(cfgp, steps))
+            flush()
     # the same with the connection options that add steps to connecting and closing (TLS wrapper, TCP_NODELAY, keepalive)
     for extra in ({"tls": True}, {"nodelay": True, "keepalive": True}):
         few = [("set", (False,)), ("get", (None,)), ("incr", (False,)), ("delete_many", (False,))]
@@ -97,37 +128,33 @@ def main(tier, rep):
                              ("call", "get", None, None, "all"), ("call", special, None, None, "bytes"), ("call", "add", False, None, "all")]
                     traces.append(L.run_program(cfg, steps))
     rep.set("t_programs_s", round(common._real_time() - T0, 1)); T0 = common._real_time()
-    L.validate(rep, traces, relevant, PROP)
+    flush(force=True)
     rep.set("t_validate_s", round(common._real_time() - T0, 1)); T0 = common._real_time()
     # spec -> code: the pooled + idle-clock variant of the as-coded model spec/Conn.tla
-    from drivers import connmodel
-    connmodel.design_and_replay(rep, tier, PROP, relevant, kinds=["pooled", "hashpooled"], pooled=True, idle=1)
-    rep.set("t_conn_model_s", round(common._real_time() - T0, 1)); T0 = common._real_time()
     npool = pool_level(rep, tier)
     rep.set("t_pool_level_s", round(common._real_time() - T0, 1)); T0 = common._real_time()
-    rep.set("pool_model_behaviours_replayed", pool_model(rep, tier))
+    th.join()
+    if "err" in box:
+        raise box["err"]
+    rep.set("t_wait_for_models_s", round(common._real_time() - T0, 1)); T0 = common._real_time()
+    connmodel.design_and_replay(rep, tier, PROP, relevant, kinds=["pooled", "hashpooled"], pooled=True, idle=1, r=box["conn"])
+    rep.set("t_conn_model_s", round(common._real_time() - T0, 1)); T0 = common._real_time()
+    rep.set("pool_model_behaviours_replayed", pool_model(rep, tier, box["pool"]))
     rep.set("t_pool_model_s", round(common._real_time() - T0, 1))
     rep.set("pool_level_histories", npool)
-    rep.set("evaluations", len(traces))
-    rep.set("distinct_nontrivial", len({(t["h"]["kind"], t["cfg"]["idle"], t["cfg"]["max_pool"], t["cfg"]["ignore_exc"]) +
-                                        tuple((s[1], s[2], s[3]) for s in t["steps"]) for t in traces
-                                        if any(s[0] == "call" and s[3] for s in t["steps"]) or t["cfg"]["idle"]}))
+    rep.set("evaluations", stats["n"])
+    rep.set("distinct_nontrivial", len(stats["distinct"]))
     rep.set("rule", f"every sequence of {length} steps over (op, fault choice, idle gap) x pool configuration "
                     "(rotating subset per configuration); non-trivial = a fault is injected or an idle timeout is configured; "
                     "distinct by (configuration, step sequence)")
-    for t in traces[11::max(1, len(traces) // 4)][:4]:
+    for t in stats["samples"][:4]:
         rep.sample({"cfg": {k: t["cfg"][k] for k in ("kind", "idle", "max_pool", "ignore_exc")}, "program": t["steps"]})
     rep.assumptions += ["sequential use: one call at a time (concurrent use is C08)",
                         "connection identity = socket identity at the socket_module seam"]
 
 
-def pool_model(rep, tier):
-    """spec/PoolSeq.tla: the as-coded sequential pool with its idle clock, carrying the PoolRule monitor.  TLC explores every
-    sequence up to Depth (state-deduplicated), checks the contract and the books, and exports a state-covering set of behaviours
-    with the events it predicts; each is replayed on the real ObjectPool: TLC validates the recorded trace, and a trace that
-    differs from the prediction although the contract accepts it is MODEL-DRIFT.  With Lifo = TRUE (a seeded defect) the model
-    must violate the contract."""
-    from pymemcache import pool as P
+def pool_model_tlc(rep, tier):
+    """the TLC part of pool_model(): [(max_size, idle, exported rows)], and the sanity run of the LIFO variant"""
     from lib import tlc
     depth = 7 if tier == "quick" else 9
 
@@ -140,17 +167,30 @@ def pool_model(rep, tier):
         raise common.MachineryError(r.error)
     if r.ok:
         raise common.MachineryError("vacuous pool model: the LIFO variant satisfies the contract")
-    traces, predicted = [], []
-    for ms, idle in (((2, 5), (3, 5), (2, 0), (2, 3), (2, 1)) if tier == "quick" else ((2, 5), (3, 5), (1, 5), (2, 0), (2, 3), (2, 1), (3, 1))):
+    out = []
+    for ms, idle in (((2, 5), (3, 5), (2, 0), (2, 1)) if tier == "quick" else ((2, 5), (3, 5), (1, 5), (2, 0), (2, 3), (2, 1), (3, 1))):
         r = tlc.run("PoolSeq", cfg_text=cfg(ms, idle), workers=16, timeout=3000)
         if r.error:
             raise common.MachineryError(r.error)
+        out.append((ms, idle, r, r.json_lines("EXP")))
+    return out
+
+
+def pool_model(rep, tier, pre=None):
+    """spec/PoolSeq.tla: the as-coded sequential pool with its idle clock, carrying the PoolRule monitor.  TLC explores every
+    sequence up to Depth (state-deduplicated), checks the contract and the books, and exports a state-covering set of behaviours
+    with the events it predicts; each is replayed on the real ObjectPool: TLC validates the recorded trace, and a trace that
+    differs from the prediction although the contract accepts it is MODEL-DRIFT.  With Lifo = TRUE (a seeded defect) the model
+    must violate the contract."""
+    from pymemcache import pool as P
+    from lib import tlc
+    traces, predicted = [], []
+    for ms, idle, r, rows in (pre or pool_model_tlc(rep, tier)):
         if not r.ok:
             rep.violation(f"C09/model/PoolSeq/max{ms}-idle{idle}/" + ",".join(r.invariants_violated),
                           "as-coded sequential pool model violates the contract", tlc.first_error_trace(r))
         rep.add("states", r.distinct)
         rep.add("transitions", r.generated)
-        rows = r.json_lines("EXP")
         rep.add("pool_model_behaviours_exported", len(rows))
         for ri, row in enumerate(rows):
             # model time units are whole numbers; on the real pool they are seconds, or half seconds (idle_timeout 2.5 / 1.5 s)
